@@ -208,7 +208,9 @@ def run_check(prop, tier, seed, replay_path=None, jobs=None):
         # maxtasksperchild=1: every shard runs in a child freshly forked from this (library-pristine) process, so a shard's
         # result cannot depend on which shards the scheduler happened to run before it in the same worker
         with ctx.Pool(min(jobs, len(shards)), initializer=_worker_init, initargs=(prop,), maxtasksperchild=1) as pool:
-            for idx, res, err in pool.imap_unordered(_worker_run, list(enumerate(shards)), chunksize=1):
+            # heavier shards first (a shard may carry a '_cost' hint); results are merged in shard order whatever the schedule
+            todo = sorted(enumerate(shards), key=lambda t: -t[1].get('_cost', 0))
+            for idx, res, err in pool.imap_unordered(_worker_run, todo, chunksize=1):
                 results[idx] = res
                 if err:
                     errors.append(err)
